@@ -17,6 +17,8 @@ BYTING = {
     "unpackify": dict(params=[("fmt", "fmt"), ("b", "intseq"), ("boolean", "bool"), ("size", "opt_int"),
                               ("reverse", "bool")], ret="tuple_val"),
     "signExtend": dict(params=[("x", "int"), ("n", "int")], ret="int"),
+    "packByte": dict(params=[("fmt", "bytes"), ("fields", "list_int")], ret="int"),
+    "unpackByte": dict(params=[("fmt", "bytes"), ("byte", "int"), ("boolean", "bool")], ret="tuple_val"),
 }
 
 CHECKING = {
